@@ -135,26 +135,36 @@ func checkConstraint(s string) (bool, error) {
 	inBlock := false
 	for _, line := range strings.Split(s, "\n") {
 		line = strings.TrimSpace(line)
-		switch {
-		case inBlock:
-			inBlock = !strings.Contains(line, "*/")
-			continue
-		case line == "":
-			continue
-		case strings.HasPrefix(line, "/*"):
-			inBlock = !strings.Contains(line, "*/")
-			continue
-		case constraint.IsGoBuild(line):
+		if !inBlock && constraint.IsGoBuild(line) {
 			expr, err := constraint.Parse(line)
 			if err != nil {
 				return false, err
 			}
 			ok := func(t string) bool { return t == "goat" }
 			return expr.Eval(ok), nil
-		case strings.HasPrefix(line, "//"):
-			continue
 		}
-		break
+		// a line may close a block comment, hold several of them, open one that runs
+		// on, and end in code: only what is left outside the comments ends the header
+		for line != "" {
+			if inBlock {
+				_, rest, closed := strings.Cut(line, "*/")
+				if !closed {
+					break
+				}
+				inBlock = false
+				line = strings.TrimSpace(rest)
+				continue
+			}
+			if strings.HasPrefix(line, "//") {
+				break
+			}
+			rest, opens := strings.CutPrefix(line, "/*")
+			if !opens {
+				return true, nil
+			}
+			inBlock = true
+			line = strings.TrimSpace(rest)
+		}
 	}
 	return true, nil
 }
